@@ -1045,6 +1045,67 @@ fn exhaustive(prop: &str, maxlen: usize, sample: u64, out: &mut gv_harness::Out,
     c
 }
 
+// ------------------------------------------------------------------------------- replay
+
+fn extract_json_string(txt: &str, key: &str) -> Option<String> {
+    let pat = format!("\"{}\":", key);
+    let i = txt.find(&pat)? + pat.len();
+    let rest = txt[i..].trim_start();
+    let rest = rest.strip_prefix('"')?;
+    let mut out = String::new();
+    let mut esc = false;
+    for ch in rest.chars() {
+        if esc {
+            out.push(ch);
+            esc = false;
+        } else if ch == '\\' {
+            esc = true;
+        } else if ch == '"' {
+            return Some(out);
+        } else {
+            out.push(ch);
+        }
+    }
+    None
+}
+
+/// inverse of `Op::txt`: "Bsi W2n1 R3e2 C2 A3 GC AA"
+fn parse_ops(s: &str) -> Option<Vec<Op>> {
+    let mut v = Vec::new();
+    for tok in s.split_whitespace() {
+        let op = match tok {
+            "Brc" => Op::Begin(Iso::Rc),
+            "Bsi" => Op::Begin(Iso::Si),
+            "Bser" => Op::Begin(Iso::Ser),
+            "GC" => Op::Gc,
+            "AA" => Op::AbortAll,
+            _ => {
+                let (k, rest) = tok.split_at(1);
+                let digits: String = rest.chars().take_while(|c| c.is_ascii_digit()).collect();
+                let t: u64 = digits.parse().ok()?;
+                let tail = &rest[digits.len()..];
+                match k {
+                    "C" if tail.is_empty() => Op::Commit(t),
+                    "A" if tail.is_empty() => Op::Abort(t),
+                    "W" | "R" => {
+                        let (ek, eid) = tail.split_at(1);
+                        let id: u64 = eid.parse().ok()?;
+                        let e = match ek {
+                            "n" => Ent::Node(id),
+                            "e" => Ent::Edge(id),
+                            _ => return None,
+                        };
+                        if k == "W" { Op::Write(t, e) } else { Op::Read(t, e) }
+                    }
+                    _ => return None,
+                }
+            }
+        };
+        v.push(op);
+    }
+    if v.is_empty() { None } else { Some(v) }
+}
+
 // ------------------------------------------------------------------------------- main
 
 fn main() {
@@ -1061,6 +1122,21 @@ fn main() {
         }
     }
     let mut out = gv_harness::Out::create(a.out.as_deref());
+    if let Some(path) = &a.replay {
+        // re-run one TM-level trace: the replay file's "input" is the op text of the failing case
+        let txt = std::fs::read_to_string(path).expect("read replay file");
+        let input = extract_json_string(&txt, "input").unwrap_or_default();
+        let mut r = Rng::new(a.seed);
+        match parse_ops(&input) {
+            Some(ops) => {
+                let c = tm_case(&prop, "tm-replay", &ops, vec!["replay".into()], &mut r);
+                out.emit(&c);
+            }
+            None => eprintln!("replay: the input is not a TM-level op text (session cases are replayed by the full run): {}", input),
+        }
+        out.finish();
+        return;
+    }
     let mut r = Rng::new(a.seed ^ if prop == "C04" { 0x0404_0404 } else { 0x0303_0303 });
     let thorough = a.tier == "thorough";
     if !only_session {
